@@ -156,6 +156,7 @@ func simC14pcap(c *sim.Ctx) {
 		}
 		return t.Truncate(time.Microsecond)
 	}
+	callPat := uint64(0) // bit i: call i is the zero-copy one (0: as the caller of readAll says)
 	readAll := func(s io.Reader, zero bool, what string, upto int, strict bool) {
 		r, err := pcapgo.NewReader(s)
 		if err != nil {
@@ -172,7 +173,7 @@ func simC14pcap(c *sim.Ctx) {
 		}
 		// what the copying call returned belongs to the caller: it is looked at
 		// again after all later reads
-		var keptD [][]byte
+		keptD := map[int][]byte{}
 		recheck := func() {
 			for i, d := range keptD {
 				if !bytes.Equal(d, pkts[i].data) {
@@ -183,6 +184,11 @@ func simC14pcap(c *sim.Ctx) {
 		for i := 0; ; i++ {
 			var d []byte
 			var ci gopacket.CaptureInfo
+			zero := zero
+			if callPat != 0 {
+				// a program that uses both calls on one reader
+				zero = callPat>>(uint(i)%63)&1 == 1
+			}
 			if zero {
 				d, ci, err = r.ZeroCopyReadPacketData()
 			} else {
@@ -210,13 +216,19 @@ func simC14pcap(c *sim.Ctx) {
 				c.Fail(what, "packet-differs", "Reader", "packet %d: got len %d caplen %d length %d ts %v; wrote len %d caplen %d length %d ts %v (zero-copy %v)", i, len(d), ci.CaptureLength, ci.Length, ci.Timestamp.UnixNano(), len(p.data), p.ci.CaptureLength, p.ci.Length, expectTS(p.ci.Timestamp).UnixNano(), zero)
 			}
 			if !zero {
-				keptD = append(keptD, d)
+				keptD[i] = d
 			}
 		}
 	}
 	// round trip, copying and zero-copy, chunked stream
 	readAll(drawStream(c, file), false, "roundtrip", len(file), true)
 	readAll(drawStream(c, file), true, "roundtrip", len(file), true)
+	// ... and with both kinds of call on one reader, in a drawn pattern
+	callPat = uint64(c.Draw(1<<30))<<1 | 1<<62
+	readAll(drawStream(c, file), false, "roundtrip", len(file), true)
+	if c.Chance(500) {
+		callPat = 0
+	}
 	// crash at every byte (exhaustive for small files, boundaries and a sample beyond)
 	cuts := cutPoints(c, len(file), hdrEnd, pkts)
 	for _, k := range cuts {
@@ -530,6 +542,7 @@ func simC14ng(c *sim.Ctx) {
 		}
 	}
 
+	callPat := uint64(0) // bit i: call i is the zero-copy one (0: as the caller of readAll says)
 	readAll := func(s io.Reader, zero, mixed bool, what string, upto int) {
 		r, err := pcapgo.NewNgReader(s, pcapgo.NgReaderOptions{WantMixedLinkType: mixed})
 		if err != nil {
@@ -550,7 +563,7 @@ func simC14ng(c *sim.Ctx) {
 			ci gopacket.CaptureInfo
 			o  pcapgo.NgPacketOptions
 		}
-		var kept []keptT
+		kept := map[int]keptT{}
 		recheck := func() {
 			for i, k := range kept {
 				if !bytes.Equal(k.d, pkts[i].data) {
@@ -568,6 +581,10 @@ func simC14ng(c *sim.Ctx) {
 			var d []byte
 			var ci gopacket.CaptureInfo
 			var o pcapgo.NgPacketOptions
+			zero := zero
+			if callPat != 0 {
+				zero = callPat>>(uint(i)%63)&1 == 1
+			}
 			if zero {
 				d, ci, o, err = r.ZeroCopyReadPacketDataWithOptions()
 			} else {
@@ -609,7 +626,7 @@ func simC14ng(c *sim.Ctx) {
 				c.Fail(what, "options-differ", "NgReader", "packet %d: options read %s, written %s", i, optStr(o), optStr(p.opts))
 			}
 			if !zero {
-				kept = append(kept, keptT{d, ci, o})
+				kept[i] = keptT{d, ci, o}
 			}
 		}
 		if upto == len(file) {
@@ -638,6 +655,12 @@ func simC14ng(c *sim.Ctx) {
 	mixed := !sameLT || c.Draw(2) == 1
 	readAll(drawStream(c, file), false, mixed, "roundtrip", len(file))
 	readAll(drawStream(c, file), true, mixed, "roundtrip", len(file))
+	// ... and with both kinds of call on one reader, in a drawn pattern
+	callPat = uint64(c.Draw(1<<30))<<1 | 1<<62
+	readAll(drawStream(c, file), false, mixed, "roundtrip", len(file))
+	if c.Chance(500) {
+		callPat = 0
+	}
 	cuts := cutPoints(c, len(file), hdrEnd, pkts)
 	for _, k := range cuts {
 		c.Fault("crash_cut")
